@@ -123,8 +123,9 @@ def request (s : Screen) (c : Client) (incr : Bool) (x y w h : Int) : Client :=
     let c := { c with R := c.R.or tmp, ready := true }
     if !incr then { c with M := c.M.or tmp, C := (c.C.sub tmp).1 } else c
 
-/-- SetEncodings as far as update scheduling is concerned -/
-def setEncodings (s : Screen) (c : Client) (copyRect cursorShape : Bool) : Client :=
+/-- SetEncodings as far as update scheduling is concerned: the flag handling in the loop over
+the encodings -/
+def setEncodings0 (s : Screen) (c : Client) (copyRect cursorShape : Bool) : Client :=
   let c := { c with useCopyRect := copyRect, cursorShape := false, cursorChanged := false }
   if cursorShape then
     -- `if(!cl->enableCursorShapeUpdates) rfbRedrawAfterHideCursor(cl,NULL)`
@@ -133,6 +134,17 @@ def setEncodings (s : Screen) (c : Client) (copyRect cursorShape : Bool) : Clien
       | none => c.M
     { c with M := m, cursorShape := true, cursorChanged := true }
   else c
+
+/-- the tail of the SetEncodings handler: a client that no longer accepts CopyRect gets what is
+still scheduled as a copy as pixel data -/
+def dropCopy (c : Client) : Client :=
+  if !c.useCopyRect && !c.C.isEmpty then
+    { c with M := c.M.or c.C, C := Region.empty, dx := 0, dy := 0 }
+  else c
+
+/-- the whole `rfbSetEncodings` case as far as update scheduling is concerned -/
+def setEncodings (s : Screen) (c : Client) (copyRect cursorShape : Bool) : Client :=
+  dropCopy (setEncodings0 s c copyRect cursorShape)
 
 /-- FB_UPDATE_PENDING && !sraRgnEmpty(requestedRegion) (rfbUpdateClient, deferUpdateTime = 0;
 NewFBSize and cursor-position updates are not part of this model) -/
